@@ -13,7 +13,7 @@ OUT="$(mktemp -d /tmp/trialout.XXXXXX)"
 cleanup() { git -C /repo worktree remove --force "$WT" 2>/dev/null; rm -rf "$WT" "$OUT"; }
 trap cleanup EXIT
 git -C /repo worktree add -q "$WT" HEAD || exit 2
-git -C "$WT" apply "$PATCH" || { echo "patch does not apply"; exit 2; }
+git -C "$WT" apply "$PATCH" 2>/dev/null || git -C "$WT" apply -3 "$PATCH" 2>/dev/null || { echo "patch does not apply"; exit 2; }
 cp "$VERIF/known_findings.json" "$OUT/"
 for ID in "$@"; do
   O="$(VERIF_REPO="$WT" VERIF_OUT="$OUT" VERIF_SEED="${VERIF_SEED:-1}" timeout "${TRIAL_TIMEOUT:-1500}" ./run.sh "$ID" "$TIER" 2>&1)"; RC=$?
